@@ -270,7 +270,7 @@ func checkC12(p *Prog, r *Report) {
 				if c.Eq {
 					succ = 0
 				}
-				if ret := (reachQ{From: Loc{ifi.Block().Succs[succ], -1}, Target: isReturn, Block: isSel}).run(); nil != ret {
+				if ret := (reachQ{From: edgeLoc(ifi.Block(), succ), Target: isReturn, Block: isSel}).run(); nil != ret {
 					bad++
 					rClose.Bad(fnName(w)+":keeps-watching", posOf(ret), "the event consumer can return from an event case: after that no connected event is handled and the listener never closes")
 				}
@@ -396,7 +396,7 @@ func checkC12(p *Prog, r *Report) {
 				trueEdge = 0
 			}
 			/* From the edge "is ErrOneShellClosed", no non-zero return. */
-			bad := reachQ{From: Loc{ifi.Block().Succs[trueEdge], -1}, Target: func(i ssa.Instruction) bool {
+			bad := reachQ{From: edgeLoc(ifi.Block(), trueEdge), Target: func(i ssa.Instruction) bool {
 				ret, ok := i.(*ssa.Return)
 				if !ok || 1 != len(ret.Results) {
 					return false
